@@ -30,6 +30,7 @@ Proved (all streams, thresholds of either sign, monotone counts, zero-threshold 
 import DastardV.Lemmas.EmtStep
 import DastardV.Lemmas.EmtSafe
 import DastardV.Lemmas.EmtRecs
+import DastardV.Lemmas.PipeProj
 namespace DastardV.C08
 open Trig
 
@@ -166,5 +167,29 @@ theorem C08_records_block_independent (zt : ZT) (hzt : ∀ p, -1 ≤ zt p) (tp t
 example : EmtSafe { npre := 4, nsamp := 12, ts := { edgeMulti := true },
                     emt := { npre := 4, nsamp := 12, threshold := 100, nmonotone := 1, enableZT := true } } :=
   ⟨by decide, by decide, fun _ => by decide, rfl, Or.inr rfl, Or.inl ⟨rfl, rfl⟩⟩
+
+/-! ### The same at the level of the whole source -/
+
+open Pipe in
+/-- **C08 at source level.**  Two runs of the source-level model `Pipe.runOps` (the model the
+correspondence check compares with the real `ProcessSegments`), whatever their other channels and
+trigger brokers: in one channel `j` receives the stream cut into the blocks `seg :: segs`, in the other
+as one block; channel `j` starts as the same freshly configured edge-multi channel.  Then the primary
+records published for channel `j` are the same (frames, pre-trigger lengths, samples). -/
+theorem C08_source_level {zts zts' : List (List (Int × Int))} (hz : zts[j]?.getD [] = zts'[j']?.getD [])
+    (hzt : ∀ p, -1 ≤ ztOf (zts[j]?.getD []) p)
+    {sg sg' : Bool} {tp tq : Nat → Int × Int} {n m : Nat} {ops ops' : List Op} {f0 : Int} (hf0 : 0 ≤ f0)
+    {seg : List Nat} {segs : List (List Nat)} {s s' : Src} {c : Chan} {outs outs' : List Out}
+    (hb : BlocksFor j sg tp n f0 ops (seg :: segs)) (hb' : BlocksFor j' sg' tq m f0 ops' [(seg :: segs).flatten])
+    (hc : s.chans[j]? = some c) (hc' : s'.chans[j']? = some c) (hf : FreshC c) (hem : c.ts.edgeMulti = true)
+    (hrun : runOps zts s ops = some outs) (hrun' : runOps zts' s' ops' = some outs') :
+    ∃ parts parts', OutsFor j outs parts ∧ OutsFor j' outs' parts' ∧
+      ((parts.map (·.1)).flatten).map coreOf = ((parts'.map (·.1)).flatten).map coreOf := by
+  obtain ⟨c1, r1, parts, hr1, ho1, he1⟩ := runOps_chan zts j sg tp ops n f0 (seg :: segs) s c outs hb hc hrun
+  obtain ⟨c2, r2, parts', hr2, ho2, he2⟩ := runOps_chan zts' j' sg' tq ops' m f0 [(seg :: segs).flatten] s' c outs' hb' hc' hrun'
+  refine ⟨parts, parts', ho1, ho2, ?_⟩
+  rw [← he1, ← he2]
+  rw [← hz] at hr2
+  exact C08_records_block_independent _ hzt tp tq n m f0 hf0 sg sg' c hf hem seg segs c1 c2 r1 r2 hr1 hr2
 
 end DastardV.C08
